@@ -79,8 +79,9 @@ func errClass(err error) string {
 func runInv(c *fw.Ctx) {
 	n := c.Pick(10, 130)
 	for i := 0; i < n; i++ {
-		cfgName := cfgRotation[i%len(cfgRotation)]
-		class := scenarioClasses[(i/len(cfgRotation)+i)%len(scenarioClasses)]
+		k := i + 3*c.Batch
+		cfgName := cfgRotation[k%len(cfgRotation)]
+		class := scenarioClasses[k%len(scenarioClasses)]
 		r := c.Rand("inv", fmt.Sprint(i))
 		height := r.Intn(7)
 		if cfgName == "prebyz" {
@@ -133,7 +134,7 @@ func scenario(c *fw.Ctx, r *fw.Rand, cfgName, class string, height int) {
 		to, data = addrp(gen.AddrSink), mixBytes(r, dataLen(r))
 		kind = "x_sink"
 	case 2:
-		to, data = addrp(addrEffects), effectsData(uint64([]int{modeStop, modeInvalid, modeRevert}[r.Intn(3)]), gen.AddrSink)
+		to, data = addrp(addrEffects), effectsData(uint64([]int{modeStop, modeInvalid, modeRevert}[r.Intn(3)]), e.freshAddr())
 		kind = "x_effects"
 	case 3:
 		to, data = nil, gen.InitOK()
@@ -157,7 +158,19 @@ func scenario(c *fw.Ctx, r *fw.Rand, cfgName, class string, height int) {
 	coin := e.chooseCoinbase(r, uint64(height+1))
 	fb := e.begin(coin, 0)
 	fund := func(to *sender, amount *big.Int) bool {
-		from := w.Senders[6+r.Intn(2)] // a whale
+		// a whale (or whoever can still afford it: the drawn history may have emptied one)
+		var from *sender
+		need := new(big.Int).Add(amount, big.NewInt(21000*50e9))
+		for _, k := range []int{6 + r.Intn(2), 6, 7, 0, 1, 2, 3, 4, 5} {
+			if s := w.Senders[k]; s != Q && fb.cur.get(s.Addr).Bal.Cmp(need) >= 0 {
+				from = s
+				break
+			}
+		}
+		if from == nil {
+			c.Count("scenario_skipped_no_funder")
+			return false
+		}
 		p := &plan{Kind: "fund_exact", S: from, Nonce: fb.cur.get(from.Addr).Nonce, To: addrp(to.Addr), Value: amount, Price: big.NewInt(int64(r.Range(1, 50)) * 1e9),
 			Gas: 21000, GasMode: "intrinsic", ValMode: "planned", Expect: expectOK, Data: nil}
 		return fb.step(r, p, false)
@@ -166,7 +179,7 @@ func scenario(c *fw.Ctx, r *fw.Rand, cfgName, class string, height int) {
 		fund(inv[1], gp) && // exactly the prepayment
 		fund(inv[2], new(big.Int).Add(gp, value)) // exactly prepayment + value
 	if okF {
-		p := fb.lattice(r, Q, tmpl{kind: "transfer_fresh", to: addrp(e.freshAddr()), expect: expectOK}, force{gasMode: "ample", noFund: true})
+		p := fb.lattice(r, Q, tmpl{kind: "transfer_fresh", to: addrp(e.freshAddr()), expect: expectOK}, force{gasMode: "ample", valMode: "one", noFund: true, price: big.NewInt(int64(r.Range(1, 50)) * 1e9)})
 		okF = p != nil && fb.step(r, p, false)
 	}
 	if !okF || e.broken {
